@@ -116,11 +116,27 @@ def verify_element(rep, mod, rule):
     rep.require(len(paths) >= 8, '_verify_element: only %d paths' % len(paths))
     probs = {'missing': [], 'describe': [], 'compare': [], 'other': []}
     seen = set()
+    # fromFunction / fromMethod always hand back a description (never None):
+    # a test of their result against None has one feasible outcome
+    imod = rep.repo.module('interface.py')
+    nonnull = True
+    for nm in ('fromFunction', 'fromMethod'):
+        for ps in summaries(find_def(imod, nm)):
+            if ps.kind in ('return', 'fall') and not (
+                    isinstance(ps.ret, ast.Call) and dotted(ps.ret.func) in
+                    ('Method', 'fromFunction', 'fromMethod')):
+                nonnull = False
     for ps in paths:
         known = {}
         extra = []
         inc = None
+        dead = False
         for c, t, p in ps.order:
+            if nonnull and c.endswith(' is None') and \
+                    c.startswith(('fromFunction(', 'fromMethod(')):
+                if t:
+                    dead = True
+                continue
             if c in KEY2ATOM:
                 known[KEY2ATOM[c]] = t
             elif c.startswith('_incompat('):
@@ -128,6 +144,8 @@ def verify_element(rep, mod, rule):
                 known['ms'] = t
             else:
                 extra.append(c)
+        if dead:
+            continue
         if extra:
             probs['other'].append('decision depends on `%s`' % extra[0][:70])
             continue
